@@ -127,6 +127,32 @@ def c01_ignore_scope(x=0, s=""):
     return {"violates": after != before, "detail": None if after == before else "records written while fields are ignored for comparison come back different"}
 
 
+def c01_refused_between(x=0):
+    from flow.record import RecordDescriptor
+    from flow.record.stream import RecordStreamReader, RecordStreamWriter
+
+    A = RecordDescriptor("c01/a", [("varint", "n")])
+    DL = RecordDescriptor("c01/dl", [("dictlist", "dl"), ("varint", "n")])
+    good = [A(n=x), DL(dl=[{"k": "v"}], n=x + 1), A(n=x + 1)]
+    fp = io.BytesIO()
+    w = RecordStreamWriter(fp)
+    w.write(good[0])
+    try:
+        w.write(DL(dl=[{"k": {1, 2}}], n=1))
+        return {"violates": True, "detail": "a record holding an unpackable value was accepted"}
+    except Exception:
+        pass
+    for r in good[1:]:
+        w.write(r)
+    w.flush()
+    try:
+        back = list(RecordStreamReader(io.BytesIO(fp.getvalue())))
+    except Exception as e:
+        return {"violates": True, "detail": f"after a refused write the stream cannot be read back: {type(e).__name__}: {e}"}
+    ok = [deep(r) for r in back] == [deep(r) for r in good]
+    return {"violates": not ok, "detail": None if ok else f"after a refused write {len(back)} of {len(good)} accepted records come back / they differ"}
+
+
 def c01_sequence(x=0):
     from flow.record import RecordDescriptor
 
@@ -215,4 +241,4 @@ def c01_sweep(seed=0, n=150):
     return {"violates": False, "cases": cases}
 
 
-CALLS = {"c01_ignore_scope": c01_ignore_scope, "c01_value": c01_value, "c01_obs": c01_obs, "c01_keyword": c01_keyword, "c01_meta": c01_meta, "c01_sequence": c01_sequence, "c01_nested": c01_nested, "c01_grouped": c01_grouped, "c01_sweep": c01_sweep}
+CALLS = {"c01_refused_between": c01_refused_between, "c01_ignore_scope": c01_ignore_scope, "c01_value": c01_value, "c01_obs": c01_obs, "c01_keyword": c01_keyword, "c01_meta": c01_meta, "c01_sequence": c01_sequence, "c01_nested": c01_nested, "c01_grouped": c01_grouped, "c01_sweep": c01_sweep}
